@@ -16,7 +16,7 @@ RULE = (
     "--config file, command-line overrides (--rules / --exclude-rules) and inline '-- sqlfluff:' directives, each setting a random subset of behaviour-observable keys (max_line_length, "
     "capitalisation_policy, rules, exclude_rules); model: last writer wins in that order; the real CLI lints the file in a fresh process and its violations must equal those of an in-process lint "
     "with the model's flattened configuration (no files involved); isolation: a second file B at the project root is linted together with the configured file A (both orders, serial and "
-    "--processes 2) and its violations must equal those of B linted alone; distinct = hierarchy hash; non-trivial = at least two sources set the same key with different values"
+    "--processes 2) and its violations must equal those of B linted alone; on the string route a plain statement is linted before and after a file with inline directives on ONE Linter and through sqlfluff.lint/fix with ONE shared FluffConfig and must give identical violations; distinct = hierarchy hash; non-trivial = at least two sources set the same key with different values"
 )
 ASSUMPTIONS = ["only behaviour-observable keys are generated, so the check never reads sqlfluff's internal config objects"]
 TIMEOUT = {"quick": 900, "thorough": 1800}
@@ -170,6 +170,32 @@ def run_case(case):
                     break
         except Exception:
             counters["isolation_unreadable"] = 1
+        # isolation on the string route: one Linter / one shared FluffConfig, plain -> inline -> plain
+        try:
+            import sqlfluff
+            from sqlfluff.core import FluffConfig, Linter
+
+            def vv(vs):
+                return sorted((v.rule_code(), v.line_no, v.line_pos, v.desc()) for v in vs)
+
+            shared = Linter(config=FluffConfig(overrides={"dialect": "ansi"}))
+            first = vv(shared.lint_string(PROBE_B).get_violations(filter_warning=False))
+            shared.lint_string(sql_a)
+            shared.lint_string(sql_a, config=shared.config)
+            again = vv(shared.lint_string(PROBE_B).get_violations(filter_warning=False))
+            counters["isolation_checks"] += 1
+            if first != again:
+                fails.append({"sig": "settings_leak_between_strings:linter", "detail": {"inline": inline, "first": first[:5], "after_inline_file": again[:5]}})
+            cfg = FluffConfig(overrides={"dialect": "ansi"})
+            a1 = sqlfluff.lint(PROBE_B, config=cfg)
+            sqlfluff.lint(sql_a, config=cfg)
+            sqlfluff.fix(sql_a, config=cfg)
+            a2 = sqlfluff.lint(PROBE_B, config=cfg)
+            counters["isolation_checks"] += 1
+            if a1 != a2:
+                fails.append({"sig": "settings_leak_between_strings:api_shared_config", "detail": {"inline": inline, "first": [x["code"] for x in a1][:8], "after_inline_file": [x["code"] for x in a2][:8]}})
+        except Exception as e:
+            counters["string_isolation_error"] = 1
         return {
             "status": "fail" if fails else "pass",
             "failures": fails,
